@@ -14,6 +14,9 @@ import RawPanelVerif.Gen.Consts
     `toPanel`, owns the ticker and enqueues its ping without waiting).  `decoupled = false` is the pinned code, in
     which ONE `select` loop did the dispatcher's and the writer's work and so sent into the queue only it drained.
 
+(c) the reader's read deadlines as a timed LTS with every `SetReadDeadline` call site as configuration (`DlCfg`, `coded`
+    = what the extractor reads from the source), `rstep`/`RdReach`.
+
 Strings are byte lists.  `uint32`/`int32` values are carried as `Nat`/`Int` (the harness stays inside the ranges).
 -/
 namespace RawPanelVerif.Gorwp
@@ -358,5 +361,113 @@ def goodPrefix : List Frame → List Nat
   | .valid id _ :: rest => id :: goodPrefix rest
   | .skipped :: rest => goodPrefix rest
   | _ => []
+
+/-! ## (c) the reader's read deadlines (real time)
+
+`AutoDetectIfPanelEncodingIsBinary` (rawpanelhelpers.go 711) arms a read deadline for its probe and leaves it armed;
+`readFromPanel` (gorwp/rawpanel.go 216-276) resets it — binary: as the FIRST statement of the frame loop (219), ASCII:
+once before the line loop (254) — and arms `Gen.gorwpFrameTimeoutMs` before every payload read (233).  As in
+`Model/Net.lean` every such place is a field of a configuration, so that "the reset sits before the loop instead of in
+it" is a configuration, and the theorems say for which configurations they hold.  `coded` is built from what the
+extractor finds in the source (constants and the syntactic places of the resets).  Granularity: whole headers, whole
+payloads, whole lines (the code has no deadline call between the bytes of a header). -/
+
+inductive DlOp
+  | skip                -- no call at this place
+  | clear               -- `SetReadDeadline(time.Time{})`
+  | arm (ms : Nat)      -- `SetReadDeadline(time.Now().Add(ms))`
+  deriving DecidableEq, Repr
+
+def DlOp.apply (now : Nat) : DlOp → Option Nat → Option Nat
+  | .skip, d => d
+  | .clear, _ => none
+  | .arm ms, _ => some (now + ms)
+
+structure DlCfg where
+  probeArm : DlOp        -- rawpanelhelpers.go 711, still in force when `readFromPanel` starts
+  binBeforeLoop : DlOp   -- binary branch, before the `for` (the code has no call there)
+  binLoopTop : DlOp      -- 219: first statement of the binary `for`
+  binPayload : DlOp      -- 233: before the payload `io.ReadFull`
+  ascBeforeLoop : DlOp   -- 254: ASCII branch, before the `for`
+  ascLoopTop : DlOp      -- first statement of the ASCII `for` (the code has no call there)
+  deriving DecidableEq, Repr
+
+def DlOp.ofFlag (b : Bool) : DlOp := if b then .clear else .skip
+
+/-- the code as the extractor reads it -/
+def coded : DlCfg :=
+  { probeArm := .arm Gen.detectorProbeTimeoutMs,
+    binBeforeLoop := .ofFlag Gen.gorwpResetBinBeforeLoop, binLoopTop := .ofFlag Gen.gorwpResetBinLoopTop,
+    binPayload := .arm Gen.gorwpFrameTimeoutMs,
+    ascBeforeLoop := .ofFlag Gen.gorwpResetAscBeforeLoop, ascLoopTop := .ofFlag Gen.gorwpResetAscLoopTop }
+
+/-- the reset of the binary loop hoisted out of the loop (shape of seeded change C19-7) -/
+def resetHoisted (c : DlCfg) : DlCfg := { c with binBeforeLoop := .clear, binLoopTop := .skip }
+
+inductive RPhase
+  | header     -- blocked reading a header (binary) / a line (ASCII)
+  | payload    -- blocked in the payload `io.ReadFull`
+  | stopped    -- the read returned a timeout: `readFromPanel` returns, `listen` closes the connection and cancels
+  deriving DecidableEq, Repr
+
+structure RdSt where
+  phase : RPhase
+  rd : Option Nat       -- the connection's read deadline (absolute ms), `none` = cleared
+  clock : Nat
+  lastHdr : Nat         -- ghost: when the header of the current / last frame was complete
+  forwarded : Nat       -- frames / lines handed on
+  deriving DecidableEq, Repr
+
+/-- `readFromPanel` at its first blocking read: probe deadline armed at `tp`, the function entered at `now` -/
+def RdSt.start (cfg : DlCfg) (ascii : Bool) (tp now : Nat) : RdSt :=
+  let d0 := cfg.probeArm.apply tp none
+  if ascii then ⟨.header, cfg.ascLoopTop.apply now (cfg.ascBeforeLoop.apply now d0), now, now, 0⟩
+  else ⟨.header, cfg.binLoopTop.apply now (cfg.binBeforeLoop.apply now d0), now, now, 0⟩
+
+inductive RdLbl
+  | hdr (now : Nat)      -- the four header bytes are complete
+  | body (now : Nat)     -- the payload is complete: forward, back to the loop top
+  | line (now : Nat)     -- ASCII: a line is complete: forward, back to the loop top
+  | expire (now : Nat)   -- the armed read deadline has passed: the blocked read returns a timeout
+  deriving DecidableEq, Repr
+
+def notExpired (rd : Option Nat) (now : Nat) : Bool :=
+  match rd with
+  | some d => decide (now < d)
+  | none => true
+
+/-- one step; time is urgent (nothing but `expire` happens at or after an armed deadline) -/
+def rstep (cfg : DlCfg) (ascii : Bool) (s : RdSt) : RdLbl → Option RdSt
+  | .hdr now =>
+    if ascii = false ∧ s.phase = .header ∧ s.clock ≤ now ∧ notExpired s.rd now = true then
+      some { s with phase := .payload, rd := cfg.binPayload.apply now s.rd, clock := now, lastHdr := now }
+    else none
+  | .body now =>
+    if ascii = false ∧ s.phase = .payload ∧ s.clock ≤ now ∧ notExpired s.rd now = true then
+      some { s with phase := .header, rd := cfg.binLoopTop.apply now s.rd, clock := now, forwarded := s.forwarded + 1 }
+    else none
+  | .line now =>
+    if ascii = true ∧ s.phase = .header ∧ s.clock ≤ now ∧ notExpired s.rd now = true then
+      some { s with rd := cfg.ascLoopTop.apply now s.rd, clock := now, lastHdr := now, forwarded := s.forwarded + 1 }
+    else none
+  | .expire now =>
+    match s.rd with
+    | some d =>
+      if s.phase ≠ .stopped ∧ s.clock ≤ now ∧ d ≤ now then some { s with phase := .stopped, clock := now } else none
+    | none => none
+
+def rrun (cfg : DlCfg) (ascii : Bool) (s : RdSt) : List RdLbl → Option RdSt
+  | [] => some s
+  | l :: ls => (rstep cfg ascii s l).bind (fun s' => rrun cfg ascii s' ls)
+
+inductive RdReach (cfg : DlCfg) (ascii : Bool) : RdSt → Prop
+  | start (tp now : Nat) : tp ≤ now → RdReach cfg ascii (RdSt.start cfg ascii tp now)
+  | step {s s' : RdSt} (l : RdLbl) : RdReach cfg ascii s → rstep cfg ascii s l = some s' → RdReach cfg ascii s'
+
+/-- the reset that makes waiting for a header deadline-free: binary — at the loop top; ASCII — at the loop top, or
+before the loop with nothing in it -/
+def DlCfg.hdrClear (cfg : DlCfg) (ascii : Bool) : Bool :=
+  if ascii then decide (cfg.ascLoopTop = .clear) || (decide (cfg.ascLoopTop = .skip) && decide (cfg.ascBeforeLoop = .clear))
+  else decide (cfg.binLoopTop = .clear)
 
 end RawPanelVerif.Gorwp
